@@ -238,6 +238,81 @@ def _site_any(world, act):
     return act['op']
 
 
+# ---- C03: requests that clearly fit must be accepted, in every reachable state ------------------------------------------
+def m_feasible(ctx, pre, act, obs, post):
+    """A transfer / remove / fill_to that the reference model finds clearly feasible (a part in a million away from every
+    limit) on the state reached so far must not raise; whatever is raised by any call must be a ValueError or TypeError."""
+    pp = ctx['pp']
+    if obs['ok']:
+        return
+    exc = obs['exc']
+    oc = type(exc).__name__
+    if not isinstance(exc, (ValueError, TypeError, RuntimeError)):
+        return [V(f"{_site_any(pre, act)} | wrong-exception | op={act['op']},raises={oc}",
+                  f"{e1.act_str(act)} raised {oc}: {exc} (a refusal is a ValueError)", ctx['case'], 'ValueError', oc)]
+    margin = F(1, 10 ** 6)
+    why = None
+    if act['op'] == 'transfer':
+        try:
+            q, unit = ref.parse_quantity(act['q'])
+        except ValueError:
+            return
+        if unit not in ('L', 'g', 'mol', 'U') or q <= 0:
+            return
+        sreg, sshape = e1.region(pre, act['src'])
+        dreg, dshape = e1.region(pre, act['dst'])
+        if sreg is None or dreg is None or (set(sreg) & set(dreg)):
+            return
+        pairs = pairs_of(sreg, sshape, dreg, dshape)
+        if pairs is None:
+            return
+        n_out, into = {}, {}
+        for a, b in pairs:
+            n_out[a] = n_out.get(a, 0) + 1
+        for a, m in n_out.items():
+            M = ref.measure(pp, e1.well_of(pre, a).contents, unit)
+            if M == 0 or m * q > M * (1 - margin):
+                return                  # not clearly available
+        for a, b in pairs:
+            c = e1.well_of(pre, a)
+            into[b] = into.get(b, F(0)) + q / ref.measure(pp, c.contents, unit) * ref.volume_stored(pp, c.contents)
+        for b, v in into.items():
+            d = e1.well_of(pre, b)
+            if d.max_volume != float('inf') and ref.volume_stored(pp, d.contents) + v > F(d.max_volume) * (1 - margin):
+                return                  # not clearly room
+        why = "every source holds clearly more than is drawn from it and every destination has clearly room"
+    elif act['op'] == 'remove':
+        if e1.region(pre, act['obj'])[0] is None:
+            return
+        why = "remove has no precondition"
+    elif act['op'] == 'fill_to':
+        try:
+            t, unit = ref.parse_quantity(act['q'])
+        except ValueError:
+            return
+        reg, _ = e1.region(pre, act['obj'])
+        solvent = ctx['subs'][act['solvent']] if 'subs' in ctx else None
+        if reg is None or solvent is None or unit not in ('L', 'g', 'mol', 'U'):
+            return
+        rs = ref.rsub(solvent)
+        per = ref.per_base(rs, unit)
+        if per == 0:
+            return
+        for a in reg:
+            c = e1.well_of(pre, a)
+            cur = ref.measure(pp, c.contents, unit)
+            if t < cur * (1 + margin) + F(1, 10 ** 12):
+                return
+            add_v = (t - cur) / per * ref.per_base(rs, 'L') / ref.storage_prefix(pp, 'L')
+            if c.max_volume != float('inf') and ref.volume_stored(pp, c.contents) + add_v > F(c.max_volume) * (1 - margin):
+                return
+        why = "the target is clearly above what every addressed vessel holds and clearly fits"
+    if why:
+        return [V(f"{_site_any(pre, act)} | refused-feasible | op={act['op']},unit={qbase(act.get('q', '')) if 'q' in act else '-'},"
+                  f"form={form_of(pre, act.get('dst') or act.get('obj'))}",
+                  f"{e1.act_str(act)} raised {oc}: {exc}, although {why}", ctx['case'], 'returns', oc)]
+
+
 # ---- C04 (immutability) -------------------------------------------------------------------------------------------
 def m_immutable(ctx, pre, act, obs, post):
     """Arguments are observably unchanged after the call, whether it returned or raised; results are new objects."""
